@@ -33,3 +33,6 @@ prop('C13', ['D1', 'D2', 'D3', 'K2'], 'dict order', ['nestings'])
 prop('CX3', ['G3', 'G4', 'K6py', 'T5'], 'tmp', [])
 
 prop('C18', ['T1', 'T2', 'F8', 'T5', 'T6', 'K7py', 'T3'], 'twins', ['all inputs'])
+
+prop('C19', ['DC1', 'DC2', 'DC3', 'DC4', 'DC5', 'G4', 'F8'], 'dataclasses', ['all layouts'])
+prop('C20', ['R1', 'R2', 'R3', 'F1'], 'ravel', ['numerical inverse'])
